@@ -93,12 +93,25 @@ M = {
                                   "(self.raw_value & !(#one << #lowest_bit)) | ((#argument_converted as #internal_base_data_type) << #lowest_bit)", [], True),
     "bp_enum_raw_value_match_free": (EN, "#raw_value_constructor(self as #base_type)", "#raw_value_constructor((self as #base_type) | 0)", [], True),
     "bp_partial_holds_raw": (CG, None, None, [], True),
+    "bp_enum_if_chain": (EN, None, None, [], True),
     "bp_rename_temp": (CG, "let extracted_bits = #extracted_bits;\n                            #convert_type::new_with_raw_value(extracted_bits)", "let raw_bits = #extracted_bits;\n                            #convert_type::new_with_raw_value(raw_bits)", [], True),
 }
 
 
 # mutants made of several edits in one file
 MULTI = {
+    # new_with_raw_value written as an if-chain with early returns instead of a match
+    "bp_enum_if_chain": [
+        ("quote!( #( #cfg_attrs )* (#value) => #ok(Self::#variant_name) )", "quote!( #( #cfg_attrs )* if raw == (#value) { return #ok(Self::#variant_name); } )"),
+        ("true => quote!(value => Err(value)),", "true => quote!(Err(raw)),"),
+        ("false => quote!(_ => unreachable!()),", "false => quote!(unreachable!()),"),
+        ("""                match value #reader {
+                    #( #new_match_branches ,)*
+                    #new_default_branch
+                }""", """                let raw = value #reader;
+                #( #new_match_branches )*
+                #new_default_branch"""),
+    ],
     # the builder's Partial type wraps the raw integer instead of the struct (same behaviour, different representation)
     "bp_partial_holds_raw": [
         ("#struct_vis struct #builder_struct_name<const MASK: #internal_base_data_type>(#struct_name);",
